@@ -10,6 +10,7 @@ def fmtErr : Err → String
   | .typeError => "TypeError"
   | .zeroDivisionError => "ZeroDivisionError"
   | .other => "Other"
+  | .keyError => "KeyError"
 
 def parseMethod (s : String) : Except String Method :=
   match s with
